@@ -18,7 +18,7 @@ use crate::{
     refbp::{self},
 };
 
-pub const KINDS: [&str; 8] = ["V", "V2", "Vc", "S", "I", "J", "Ip", "Im"];
+pub const KINDS: [&str; 10] = ["V", "V2", "Vc", "S", "Vp", "I", "J", "Ip", "Im", "X2"];
 
 pub struct Member<P: G> {
     pub kind: &'static str,
@@ -43,7 +43,7 @@ pub struct Templates<P: G> {
 
 fn kind_cfg(kind: &str, n: usize, d: usize) -> Cfg {
     match kind {
-        "V2" => Cfg::new(n, 2, 2, d),
+        "V2" | "X2" => Cfg::new(n, 2, 2, d),
         "Vc" => Cfg::new(n, 1, 4, d),
         _ => Cfg::new(n, 1, 1, d),
     }
@@ -60,6 +60,11 @@ pub fn make_member<P: G>(kind: &'static str, pos: usize, n: usize, d: usize) -> 
     if kind == "S" {
         wit.seed = Some(seed_scalar(pos as u64 % 5));
     }
+    if kind == "Vp" {
+        // a valid member carrying a non-zero minimum-value promise
+        wit.values[0] = 2 + (pos as u64 & 1);
+        wit.promises[0] = Some(1 + (pos as u64 & 1));
+    }
     let ctx = contexts()[pos % 6];
     let built = build_cached::<P>(&cfg, &wit).expect("member builds");
     let proof = lib_prove(&built, &ctx, &mut HRng::chacha(pos as u64 + 17)).expect("member proves");
@@ -74,6 +79,14 @@ pub fn make_member<P: G>(kind: &'static str, pos: usize, n: usize, d: usize) -> 
                 "Ip" => rp.d1[0] += delta,
                 _ => rp.d1[0] -= delta,
             }
+            proof_final = P::from_bytes(&refbp::ref_encode(&rp)).expect("mutant decodes");
+        },
+        "X2" => {
+            // the largest kind of member, re-encoded with another extension-degree tag and one more / one fewer d1 scalar
+            let mut rp = ref_proof_of(&proof_final).unwrap();
+            let d2 = if d < 6 { d + 1 } else { d - 1 };
+            rp.ext = d2 as u8;
+            rp.d1.resize(d2, Scalar::from(7u8));
             proof_final = P::from_bytes(&refbp::ref_encode(&rp)).expect("mutant decodes");
         },
         "J" => {
@@ -112,7 +125,7 @@ pub fn templates<P: G>(n: usize, d: usize, positions: usize, kinds: &[&'static s
         let mut row = Vec::new();
         for k in kinds {
             let m = make_member::<P>(k, pos, n, d);
-            let expect_valid = matches!(*k, "V" | "V2" | "Vc" | "S");
+            let expect_valid = matches!(*k, "V" | "V2" | "Vc" | "S" | "Vp");
             if m.alone_ok != m.ref_ok {
                 problems.push(format!("member {}@{}: library alone {} but reference {}", k, pos, m.alone_ok, m.ref_ok));
             }
@@ -259,6 +272,19 @@ fn long_cases<P: G>(tpl: Arc<Templates<P>>, lengths: &[usize], every_position: b
                 k[b] = 4;
                 cases.push(mk(format!("cancelling-pair@{},{}", a, b), k, 0, tpl.clone()));
             }
+        }
+        // one larger member (aggregation 2, its own capacity) at the chunk boundaries, alone and with an invalid member
+        let mut seen3 = std::collections::BTreeSet::new();
+        for &p in &[0usize, 1, 255, 256, len - 1] {
+            if p >= len || !seen3.insert(p) {
+                continue;
+            }
+            let mut k = default.clone();
+            k[p] = 5;
+            cases.push(mk(format!("larger-member@{}", p), k.clone(), 0, tpl.clone()));
+            let q = if p == len - 1 { 0 } else { len - 1 };
+            k[q] = 2;
+            cases.push(mk(format!("larger-member@{}+invalid@{}", p, q), k, 0, tpl.clone()));
         }
         for rot in [1usize, 255, 256, 257] {
             if rot < len {
@@ -482,7 +508,7 @@ fn run_group<P: G>(rep: &mut Report) {
             vec![257, 513]
         };
         let maxlen = *lengths.iter().max().unwrap();
-        let long = Arc::new(templates::<P>(n, d, maxlen, &["V", "S", "I", "Ip", "Im"]));
+        let long = Arc::new(templates::<P>(n, d, maxlen, &["V", "S", "I", "Ip", "Im", "V2"]));
         for p in &long.problems {
             rep.machinery.push(format!("long member templates: {}", p));
         }
@@ -492,8 +518,8 @@ fn run_group<P: G>(rep: &mut Report) {
 }
 
 pub fn run(rep: &mut Report) {
-    rep.rule = "history BFS over the member-kind alphabet {V (m=1), V2 (m=2,c=2), Vc (m=1,c=4), S (seeded), I (r1+1), J (commitment+H), \
-                Ip/Im (d1[0] +/- delta, cancel under equal weights)} to depth 4 (thorough 5), both verifying modes; long batches \
+    rep.rule = "history BFS over the member-kind alphabet {V (m=1), V2 (m=2,c=2), Vc (m=1,c=4), S (seeded), Vp (valid, non-zero promise), I (r1+1), J (commitment+H), \
+                Ip/Im (d1[0] +/- delta, cancel under equal weights), X2 (m=2 proof with another degree tag)} to depth 4 (thorough 5), both verifying modes; long batches \
                 L in {255,256,257,511,512,513,600,(1024,1025)} x {all valid, one invalid at each listed position, cancelling pairs, \
                 rotations}; all (|t|,|s|,|p|) in {0..3}^3; members that verify alone but disagree on bit length / degree / H / G_k / \
                 Gi,Hi at every position of a 3-batch (smaller, equal and larger than the rest) and beyond the chunk limit; \
